@@ -239,6 +239,7 @@ func genC04(r *rng, n int) {
 			kind := 1
 			cls := r.intn(10)
 			forceName := false
+			wrongType := false
 			if oi < len(script) {
 				cls = 100
 				p, subT, kind, forceName = script[oi].p, script[oi].subT, script[oi].kind, script[oi].name
@@ -251,6 +252,7 @@ func genC04(r *rng, n int) {
 				if r.chance(35) {
 					kind = 2
 				} else if subT != nil && r.chance(15) {
+					wrongType = true
 					// a node of a DIFFERENT type (same byte width where there is one): must be an error, value unchanged
 					switch subT.K {
 					case thrift.I64:
@@ -421,6 +423,11 @@ func genC04(r *rng, n int) {
 			ops = append(ops, pathFields(pEmit)...)
 			ops = append(ops, fi(int(subT.K)), fx(sb), fi(ei), fb(exist), fx(res), fi(flags|declBit(root, p)|byName))
 			done++
+			if wrongType && e == nil {
+				// the target had been removed by an earlier op, so the wrongly typed node was INSERTED: the value no longer
+				// conforms to its descriptor (outside the API contract); the history ends here
+				break
+			}
 			if (kind == 2 || kind == 4) && len(p) > 0 && p[len(p)-1].Kind == 2 && p[len(p)-1].N < 0 {
 				break // unset with a negative index: finding 405 may have corrupted the value
 			}
